@@ -215,7 +215,28 @@ func cfDirIsDDLorDML(st string) bool {
 // ---------------------------------------------------------------------------------------------
 // C16
 
-var c16Trivia = []string{" ", "\n", "\t ", "  ", " /*x*/ ", " -- c\n", " #h\n", "\n/* a\n b */\n"}
+var c16Trivia = []string{" ", "\n", "\t ", "  ", " /*x*/ ", " -- c\n", " #h\n", "\n/* a\n b */\n",
+	// (round 3, seed C16h) runs of several comments: a hand-written look-ahead that skips "spaces, one comment, spaces" is wrong here
+	" /*a*/ /*b*/ ", " /*a*//*b*/", " -- c\n-- d\n", " #h\n/*x*/ -- c\n", "\n/*x*/\n/*y*/\n/*z*/\n"}
+
+// the trivia put into EVERY gap by the three deterministic re-spellings of c16Check
+var c16EveryGap = []string{" /*a*/ /*b*/ ", " -- c\n-- d\n", " #h\n /*x*/\n"}
+
+// respellAll rebuilds s from its tokens with the same trivia string in every gap (also where two tokens were adjacent: licensed by
+// the proved trivia lemma, the trivia begins with a blank) and the tokens' own spelling.
+func respellAll(toks []token.Token, trivia string) string {
+	var sb strings.Builder
+	for i, t := range toks {
+		if t.Kind == token.TokenEOF {
+			continue
+		}
+		if i > 0 {
+			sb.WriteString(trivia)
+		}
+		sb.WriteString(t.Raw)
+	}
+	return sb.String()
+}
 
 // respell rebuilds s from its tokens with new trivia and new letter case.
 // level 1: trivia and reserved-keyword case only. level 2: also the case of unquoted identifiers.
@@ -287,6 +308,19 @@ func c16Check(r *rng, e *entry, s string) (accepted bool, detail string) {
 		return false, ""
 	}
 	d0 := dumpAll(r0.nodes, false)
+	for _, tv := range c16EveryGap {
+		s2 := respellAll(toks, tv)
+		r2 := safeParse(e, s2)
+		if r2.hung || r2.panicked != nil {
+			return true, fmt.Sprintf("re-spelled input %q does not return normally", s2)
+		}
+		if r2.err != nil {
+			return true, fmt.Sprintf("re-spelled input %q (a run of comments between all tokens) is rejected: %v", s2, r2.err)
+		}
+		if d2 := dumpAll(r2.nodes, false); d2 != d0 {
+			return true, fmt.Sprintf("re-spelling trivia (%q) changes the tree: %s", s2, firstDiff(d0, d2))
+		}
+	}
 	for level := 1; level <= 2; level++ {
 		for k := 0; k < 2; k++ {
 			s2 := respell(r, s, toks, level)
